@@ -160,7 +160,7 @@ class Check(PropertyCheck):
                   "round trips for versions 10..20). "
                   "trusted: Lean kernel, the AST-based translator (reads `data[\"version\"] = …` in each converter).")
     technique = "Lean 4 proof over a table regenerated from the source (decide +kernel + lemmas) + differential migration runs"
-    rule = ("kinds: dumpperm (records of a shipped multi-record dump in another admissible order load as the same flows), conv (one converter step vs the Lean converter), dump (each shipped dumpfile: load, validity, re-save/re-load equality, golden digest), current (random "
+    rule = ("kinds: dumpsplit (a shipped multi-record dump spread over two files read in sequence, optionally another file in between), dumpperm (records of a shipped multi-record dump in another admissible order load as the same flows), conv (one converter step vs the Lean converter), dump (each shipped dumpfile: load, validity, re-save/re-load equality, golden digest), current (random "
             "current-format flows must pass migration unchanged), downgrade (random current flow restricted to what version v "
             "could express, inverse-converted down to v in 10..20, migrated forward, compared), future (unknown versions). "
             "distinct = distinct (kind, parameters); non-trivial = kind != dump-metadata-only.")
@@ -224,10 +224,25 @@ class Check(PropertyCheck):
         for p in multi:
             for i in range(12):
                 yield {"kind": "dumpperm", "file": os.path.relpath(p, REPO), "perm_seed": i}
+        # one old recording spread over two files (rotated stream file), read one after the other in one process, optionally with
+        # a complete load of another old file in between
+        # (another recording: a different file that loads — the same recording read twice at once would collide on its own flow ids)
+        gold = self._golden()
+        others_of = lambda p_: [os.path.relpath(q, REPO) for q in self._dumps()
+                                if q != p_ and (gold.get(os.path.relpath(q, REPO)) or {}).get("flows")]
+        for p in multi:
+            n = len(split_records(open(p, "rb").read()))
+            for cut in range(1, n):
+                yield {"kind": "dumpsplit", "file": os.path.relpath(p, REPO), "cut": cut, "between": None}
+                o_ = others_of(p)
+                yield {"kind": "dumpsplit", "file": os.path.relpath(p, REPO), "cut": cut, "between": o_[cut % len(o_)]}
         while True:
             r = rng.random()
             st = self._rand_flow_state(rng)
-            if r < 0.04 and multi:
+            if r < 0.02 and multi:
+                p_ = rng.choice(multi); n_ = len(split_records(open(p_, "rb").read()))
+                yield {"kind": "dumpsplit", "file": os.path.relpath(p_, REPO), "cut": rng.randint(1, n_ - 1), "between": rng.choice(others_of(p_) + [None])}
+            elif r < 0.04 and multi:
                 yield {"kind": "dumpperm", "file": os.path.relpath(rng.choice(multi), REPO), "perm_seed": rng.randint(12, 10 ** 9)}
             elif r < 0.12:
                 dumps = self._dumps()
@@ -313,6 +328,21 @@ class Check(PropertyCheck):
             ref = load(raw)
             got = load(b"".join(recs[i] for i in order))
             return {"order": order, "ref": ref, "got": got, "golden": (self._golden().get(case["file"]) or {}).get("flows")}
+        if k == "dumpsplit":
+            raw = open(os.path.join(REPO, case["file"]), "rb").read()
+            recs = split_records(raw)
+            def load(bs):
+                try:
+                    return [digest(_strip_volatile([f.get_state()])) for f in mio.FlowReader(_io.BytesIO(bs)).stream()]
+                except exceptions.FlowReadException as e:
+                    return ["rejected: " + str(e)[:120]]
+            a = load(b"".join(recs[:case["cut"]]))
+            mid = load(open(os.path.join(REPO, case["between"]), "rb").read()) if case["between"] else None
+            b = load(b"".join(recs[case["cut"]:]))
+            g = self._golden()
+            return {"got": sorted(a + b), "golden": (g.get(case["file"]) or {}).get("flows"),
+                    "mid": sorted(mid) if mid is not None else None,
+                    "mid_golden": (g.get(case["between"]) or {}).get("flows") if case["between"] else None}
         if k == "current":
             st = canon_out(case["state"])
             out = compat.migrate_flow(copy.deepcopy(st))
@@ -448,6 +478,14 @@ class Check(PropertyCheck):
                 fails.append(f"{case['file']} with its records in the order {obs['order']} loads as different flows than in the shipped order "
                              f"({len(obs['got']) if isinstance(obs['got'], list) else obs['got']} vs {len(obs['ref']) if isinstance(obs['ref'], list) else obs['ref']} flows; "
                              f"{sum(1 for x in obs['got'] if x not in obs['ref']) if isinstance(obs['got'], list) and isinstance(obs['ref'], list) else '?'} differ)")
+        elif k == "dumpsplit":
+            # the same old recording, spread over two files that are read one after the other, is the same flows
+            if obs["golden"] is None: fails.append(f"{case['file']}: no golden per-flow digests recorded")
+            elif obs["got"] != obs["golden"]:
+                fails.append(f"{case['file']} split after record {case['cut']}" + (f" (with {case['between']} loaded in between)" if case["between"] else "") +
+                             f" does not load as the recorded flows ({sum(1 for x in obs['got'] if x not in obs['golden'])} of {len(obs['got'])} differ)")
+            if obs["mid"] is not None and obs["mid"] != obs["mid_golden"]:
+                fails.append(f"{case['between']} loaded between the two parts of {case['file']} does not load as recorded")
         elif k == "current":
             # "current-format flow states pass through migration unchanged"
             if not obs["unchanged"]: fails.append("current-format state changed by migrate_flow")
@@ -518,6 +556,7 @@ class Check(PropertyCheck):
         if case["kind"] == "dump": return ("dump", case["file"])
         if case["kind"] == "dumpmut": return ("dumpmut", case["file"], case["edit"], case["n"])
         if case["kind"] == "dumpperm": return ("dumpperm", case["file"], tuple(obs["order"]) if obs and "order" in obs else case["perm_seed"])
+        if case["kind"] == "dumpsplit": return ("dumpsplit", case["file"], case["cut"], case["between"])
         if case["kind"] == "future": return ("future", str(case["version"]))
         if case["kind"] == "conv": return ("conv", case["v"], case.get("tweak"), digest(case["state"]))
         return (case["kind"], case.get("to"), digest(case["state"]))
@@ -525,6 +564,7 @@ class Check(PropertyCheck):
     def branches(self, case, obs):
         if case["kind"] == "dumpmut": return ["dumpmut:" + case["edit"]]
         if case["kind"] == "dumpperm": return ["dumpperm:" + os.path.basename(case["file"])]
+        if case["kind"] == "dumpsplit": return ["dumpsplit:" + os.path.basename(case["file"]) + (":between" if case["between"] else "")]
         if case["kind"] == "conv": return ["conv:v%d" % case["v"], "conv-tweak:%s" % case.get("tweak")]
         return [case["kind"] + (":v%d" % case["to"] if case["kind"] == "downgrade" else "")]
 
